@@ -130,7 +130,8 @@ type vfc13Entry struct {
 type vfc13Block struct {
 	multi bool
 	cmds  []vfc13Cmd
-	tag   string // f<id> | t<id> | snap | book
+	tag   string // f<id> | t<id> | snap | book | sel (a SELECT the master wrote ahead of a write in another database)
+	db    int    // database the block was written in (histories with databases; 0 otherwise)
 }
 
 func (b vfc13Block) tok() string {
@@ -155,6 +156,18 @@ type vfc13Site struct {
 	store  map[string]*vfc13Entry
 	now    int64
 	stream []vfc13Block
+	db     int // database of the last write of the replication stream (histories with databases)
+}
+
+// selectDB: the next write at this site is made in database d. A master writes SELECT d into its replication stream
+// ahead of the first write in another database than the previous one. The double keeps ONE keyspace (its databases
+// alias): what is judged in a history with databases is which database a unit is committed in, not key states.
+func (s *vfc13Site) selectDB(d int) {
+	if s.db == d {
+		return
+	}
+	s.db = d
+	s.stream = append(s.stream, vfc13Block{cmds: []vfc13Cmd{vfc13C("SELECT", strconv.Itoa(d))}, tag: "sel", db: d})
 }
 
 func vfc13NewSite(cfg vfc13RedisCfg) *vfc13Site {
@@ -521,6 +534,7 @@ func (s *vfc13Site) exec(isTxn bool, cmds []vfc13Cmd, tag func(i int) string) []
 	}
 	for i := range blocks {
 		blocks[i].tag = tag(i)
+		blocks[i].db = s.db
 	}
 	s.stream = append(s.stream, blocks...)
 	return blocks
@@ -529,7 +543,7 @@ func (s *vfc13Site) exec(isTxn bool, cmds []vfc13Cmd, tag func(i int) string) []
 func (s *vfc13Site) activeExpire(k []byte, tag func(i int) string) []vfc13Block {
 	var blocks []vfc13Block
 	for i, e := range s.lazyExpire(k) {
-		blocks = append(blocks, vfc13Block{cmds: []vfc13Cmd{e}, tag: tag(i)})
+		blocks = append(blocks, vfc13Block{cmds: []vfc13Cmd{e}, tag: tag(i), db: s.db})
 	}
 	s.stream = append(s.stream, blocks...)
 	return blocks
@@ -831,6 +845,8 @@ type vfc13World struct {
 	cuts         bool   // this history injects connection cuts and takes resume points from the real StartPoint
 	rewound      bool   // a restart resumed BEFORE the last committed unit (allowed in pipeline / parallel mode): repeats are allowed from then on
 	rerun        string // how VERIF_REPLAY re-runs this world: "hist <subseed> <events>" | "script <line>"
+	dbs          bool   // a history with DATABASES: clients write in databases 0 / 1 / 3, SELECT blocks in the streams, the exactly-once monitor also asks WHERE a unit was committed (D31); no Lean world op (the model has one keyspace)
+	reqDB        int    // database of the tool request being applied
 }
 
 // violate: Session.Violate with the world's re-run recipe in the replay record
@@ -907,6 +923,7 @@ func (w *vfc13World) expire(site int, k []byte) {
 type vfc13Req struct {
 	multi bool
 	cmds  []vfc13Cmd
+	db    int // database the target connection had selected when the request (the EXEC of a block) arrived
 }
 
 // vfc13GroupLog turns target-double log entries into requests in arrival
@@ -921,14 +938,14 @@ func vfc13GroupLog(entries []vfdoubles.LogEntry) []vfc13Req {
 		case "multi":
 			in, cur = true, nil
 		case "exec":
-			out = append(out, vfc13Req{multi: true, cmds: cur})
+			out = append(out, vfc13Req{multi: true, cmds: cur, db: e.DB})
 			in = false
 		case "select", "hget", "hgetall", "hmget", "exists", "info", "ping", "zrangebyscore", "zrange", "zcard", "zscore", "get", "command", "type", "ttl", "pttl", "scan", "keys", "dbsize":
 		default:
 			if in {
 				cur = append(cur, c)
 			} else {
-				out = append(out, vfc13Req{cmds: []vfc13Cmd{c}})
+				out = append(out, vfc13Req{cmds: []vfc13Cmd{c}, db: e.DB})
 			}
 		}
 	}
@@ -1071,6 +1088,9 @@ func (w *vfc13World) bookTokenFor(cp string, c vfc13Cmd) (string, bool) {
 // be stand-alone requests of known forms, only those are proved to be skipped.
 func (w *vfc13World) applyToolRequest(l *vfc13Link, q vfc13Req) {
 	name := vfc13SiteName(l.src)
+	if w.dbs {
+		w.sites[l.dst].selectDB(q.db)
+	}
 	if !q.multi {
 		c := q.cmds[0]
 		if tok, ok := w.bookToken(l, c); ok {
@@ -1193,6 +1213,7 @@ func (w *vfc13World) linkRun(r *vfutil.Rand, src int, n int) bool {
 			w.skipBlock(l, kind, blocks[i])
 		}
 		next = j + 1
+		w.reqDB = q.db
 		w.commitBlock(l, kind, blocks[j], txn, m)
 		l.cpos, l.coff = l.pos+j+1, ends[j]
 	}
@@ -1440,6 +1461,23 @@ func (w *vfc13World) commitBlock(l *vfc13Link, kind string, blk vfc13Block, txn 
 	if blk.tag == "snap" || blk.tag == "book" {
 		id = "0"
 	}
+	if w.dbs {
+		if blk.tag[0] == 'f' && blk.db != w.reqDB {
+			// the exactly-once monitor with databases: the write was applied at the other site - in another database.
+			// The known shape (D31): nothing selects the unit's database, everything lands in the connection's DB 0.
+			shape := fmt.Sprintf("src_db=%d committed in dst_db=%d", blk.db, w.reqDB)
+			if blk.db != 0 && w.reqDB == 0 {
+				shape = "src_db!=0 committed in dst_db=0"
+			}
+			w.violate("unit-applied-in-other-database",
+				fmt.Sprintf("closed loop: the client block %s written in DB %d at site %s was committed in DB %d at the other site", blk.tag, blk.db, name, w.reqDB),
+				map[string]interface{}{"shape": shape, "src_db": blk.db, "dst_db": w.reqDB, "mode": string(l.mode), "link": name, "block": blk.tok()})
+			w.s.Count("closed_loop_unit_in_other_database")
+		} else if blk.tag[0] == 'f' {
+			w.s.Count(fmt.Sprintf("closed_loop_unit_in_source_database_%d", blk.db))
+		}
+		w.sites[l.dst].selectDB(w.reqDB)
+	}
 	w.sites[l.dst].exec(true, txn, func(int) string { return "t" + id })
 	w.commits = append(w.commits, blk.tag+"@"+vfc13SiteName(l.dst))
 	w.commitCount[blk.tag]++
@@ -1492,6 +1530,9 @@ func (w *vfc13World) snapshot(src int, cmds []vfc13Cmd) {
 		lc[i] = vfc13Cmd{Name: []byte(c.lower()), Args: c.Args}
 	}
 	w.evs = append(w.evs, fmt.Sprintf("s%s:%s:%s", name, vfutil.Hex(mv), vfc13CmdsTok(lc)))
+	if w.dbs {
+		w.sites[l.dst].selectDB(reqs[0].db)
+	}
 	w.sites[l.dst].exec(true, txn, func(int) string { return "snap" })
 	w.s.Count("snapshot_unit")
 }
@@ -1692,6 +1733,12 @@ func (w *vfc13World) streamTok(i int) string {
 }
 
 func (w *vfc13World) finish() {
+	if w.dbs {
+		// the Lean world has one keyspace per site and no SELECT blocks: a history with databases is judged by the
+		// monitors on the implementation (no loop, nothing suppressed, each once, quiescence, and the database)
+		w.s.Count("history_with_databases")
+		return
+	}
 	commits := "."
 	if len(w.commits) > 0 {
 		commits = strings.Join(w.commits, ",")
@@ -1764,11 +1811,21 @@ func (w *vfc13World) drain(r *vfutil.Rand) {
 // runHistory: a generated client history at both sites with the links running
 // the real send loop in between, then a drain.
 func vfc13RunHistory(t *testing.T, s *vfutil.Session, sub uint64, nEv int) bool {
+	return vfc13RunHistoryOpt(t, s, sub, nEv, false)
+}
+
+// vfc13RunHistoryOpt: dbs = a history with databases (see vfc13World.dbs); the generator draws nothing extra when dbs is
+// false, so the histories without databases are the ones of the earlier sessions
+func vfc13RunHistoryOpt(t *testing.T, s *vfutil.Session, sub uint64, nEv int, dbs bool) bool {
 	r := vfutil.NewRand(sub)
 	cfgs := func() vfc13RedisCfg { return vfc13RedisCfg{r.Bool(), r.Chance(3, 4), r.Chance(3, 4)} }
 	mode := vfutil.Pick(r, []config.ReplayMode{config.ReplayModeSync, config.ReplayModePipeline, config.ReplayModeParallel})
 	w := vfc13NewWorld(t, s, r, cfgs(), cfgs(), "none", mode)
 	w.rerun = fmt.Sprintf("hist %d %d", sub, nEv)
+	w.dbs = dbs
+	if dbs {
+		w.rerun = fmt.Sprintf("histdb %d %d", sub, nEv)
+	}
 	w.cuts = r.Chance(1, 3)
 	if w.cuts {
 		s.Count("history_with_cuts_and_real_startpoint")
@@ -1776,6 +1833,10 @@ func vfc13RunHistory(t *testing.T, s *vfutil.Session, sub uint64, nEv int) bool 
 	s.Count("history_mode_" + string(mode))
 	for i := 0; i < nEv; i++ {
 		site := r.Intn(2)
+		if w.dbs && r.Chance(1, 3) {
+			// the clients of this site go on in another database
+			w.sites[site].selectDB(vfutil.Pick(r, []int{0, 0, 1, 3}))
+		}
 		switch x := r.Intn(100); {
 		case x < 30:
 			w.client(site, false, []vfc13Cmd{vfc13ClientCmd(r, w)}, true)
@@ -1893,6 +1954,13 @@ func TestVerifC13(t *testing.T) {
 			vfc13RunHistory(t, s, sub, nEv)
 			s.Count("replayed_history")
 			return
+		case f[0] == "histdb" && len(f) == 2:
+			var sub uint64
+			var nEv int
+			fmt.Sscanf(f[1], "%d %d", &sub, &nEv)
+			vfc13RunHistoryOpt(t, s, sub, nEv, true)
+			s.Count("replayed_history_with_databases")
+			return
 		case f[0] == "script" && len(f) == 2:
 			vfc13RunScript(t, s, f[1])
 			s.Count("replayed_script")
@@ -1900,6 +1968,22 @@ func TestVerifC13(t *testing.T) {
 		case f[0] == "dbprobe":
 			vfc13DbProbe(t, s)
 			s.Count("replayed_dbprobe")
+			return
+		case f[0] == "clusterloop":
+			vfc13ClusterProbe(t, s)
+			s.Count("replayed_clusterloop")
+			return
+		case f[0] == "nearmiss":
+			vfc13NearMissProbe(t, s, r)
+			s.Count("replayed_nearmiss")
+			return
+		case f[0] == "hashtagplain":
+			vfc13HashTagPlainProbe(t, s)
+			s.Count("replayed_hashtagplain")
+			return
+		case f[0] == "hashtagprobe":
+			vfc13HashTagProbe(t, s)
+			s.Count("replayed_hashtagprobe")
 			return
 		}
 		t.Logf("replay file %s carries no re-run recipe; running the whole suite", rp)
@@ -2029,7 +2113,27 @@ func TestVerifC13(t *testing.T) {
 				if r.Chance(1, 3) {
 					stream = append(stream, vfc13C(vfutil.Pick(r, []string{"del", "UNLINK"}), checkpoint.BisyncMarkerKey(cp, tag)))
 				}
-				stream = append(stream, vfc13C("set", checkpoint.BisyncMarkerKey(cp, tag), "mv", "PXAT", "99999"))
+				mk := checkpoint.BisyncMarkerKey(cp, tag)
+				if r.Chance(1, 5) {
+					// session 5: NEAR MISSES of the two recognised shapes ahead of / instead of the marker SET - none of them is a
+					// lazy expiry of the marker or a marker write, so the block is a client transaction and must come out as a unit
+					// (the tool never writes these; a master never propagates them for a commit): a DEL / UNLINK naming the marker
+					// AND another key (either order), the expiry twice, the DEL of a control key that is not a marker, a key-less
+					// DEL, a SET of the marker without a value, a non-SET write of the marker, the marker key in another case
+					near := [][]vfc13Cmd{
+						{vfc13C("del", mk, "k1")}, {vfc13C("UNLINK", "k1", mk)}, {vfc13C("del", mk, mk)},
+						{vfc13C("del", mk), vfc13C("unlink", mk)},
+						{vfc13C("del", checkpoint.BisyncLatestCheckpointKey(cp, tag))}, {vfc13C("del")},
+						{vfc13C("set", mk)}, {vfc13C("setex", mk, "10", "mv")}, {vfc13C("getset", mk, "mv")},
+						{vfc13C("set", strings.ToUpper(mk[:1]) + mk[1:], "mv", "PXAT", "99999")},
+						{vfc13C("expire", mk, "10")},
+					}
+					stream = append(stream, vfutil.Pick(r, near)...)
+					s.Count("parse_mirror_near_miss")
+				}
+				if r.Chance(9, 10) {
+					stream = append(stream, vfc13C("set", mk, "mv", "PXAT", "99999"))
+				}
 				nb := r.Intn(3)
 				if r.Chance(1, 4) {
 					nb = r.Range(9, 40) // the mirror of a long client transaction
@@ -2104,6 +2208,16 @@ func TestVerifC13(t *testing.T) {
 	// ---- databases: a write made in DB n at one site must be applied in DB n at the other
 	vfc13DbProbe(t, s)
 
+	// ---- replaceHashTag x namespace filter of the snapshot phase (vf_c13_hashtag_test.go)
+	vfc13HashTagProbe(t, s)
+	vfc13HashTagPlainProbe(t, s)
+
+	// ---- the closed loop with a CLUSTER pair (vf_c13_cluster_test.go)
+	vfc13ClusterProbe(t, s)
+
+	// ---- near misses of a mirrored transaction: a monitor on the implementation alone (vf_c13_nearmiss_test.go)
+	vfc13NearMissProbe(t, s, r)
+
 	// ---- corpus (scripted histories) then generated histories
 	for _, l := range vfutil.Corpus("C13") {
 		if vfc13RunScript(t, s, l) {
@@ -2114,6 +2228,12 @@ func TestVerifC13(t *testing.T) {
 		sub := r.U64()
 		vfc13RunHistory(t, s, sub, r.Range(10, 70))
 		s.Count("histories")
+	}
+	// ---- histories with DATABASES (session 5): the same closed loop, clients writing in databases 0 / 1 / 3; the
+	// exactly-once monitor also asks in which database a unit was committed (known finding D31)
+	rd := vfutil.NewRand(vfutil.Seed() ^ 0x5d31)
+	for i := 0; i < vfutil.Scale(40, 1200); i++ {
+		vfc13RunHistoryOpt(t, s, rd.U64(), rd.Range(10, 70), true)
 	}
 }
 
